@@ -63,7 +63,7 @@ template<uint32_t OPT, bool SHRINK> static void check_fill() {
   }
   V_ASSERT(w.other_view[w.probe] == uint8_t(~w.before), "fill: the other view is not written by the allocator");
   V_ASSERT(rw_depth == 0 && (protect_calls == 2 || (keep == e - g && protect_calls == 0)), "fill: memory is made writable around the fill and executable again afterwards");
-  if (keep == e - g) V_WITNESS("fill-nothing-freed");
+  if constexpr (SHRINK) { if (keep == e - g) V_WITNESS("fill-nothing-freed"); }
 }
 HARNESS h_fill_release() { check_fill<0, false>(); }
 HARNESS h_fill_release_dual() { check_fill<kOptDual, false>(); }
@@ -77,9 +77,10 @@ HARNESS h_write() {
   JitAllocator::Span span; span._rx = w.b->rx_ptr() + size_t(g) * G; span._rw = w.b->rw_ptr() + size_t(g) * G; span._size = size_t(n) * G; span._block = w.b;
   if (nondet_bool()) span._flags = JitAllocator::Span::Flags::kInstructionCacheClean;
   static uint8_t src[128];
-  size_t size = nondet_bool() ? size_t(nondet_u8()) : size_t(nondet_u64());
+  size_t size = nondet_bool() ? size_t(nondet_u8() & 31) : size_t(nondet_u64());
+  V_ASSUME(size <= 24 || size > 128);   // copies of at most 24 bytes (memcpy loop bound), or sizes no span here can hold
   size_t sidx = nondet_u8() & 127; uint8_t sval = nondet_u8(); src[sidx] = sval;
-  uint32_t policy = nondet_u8() & 3;
+  uint32_t policy = nondet_u8() & 3; V_ASSUME(policy <= 2);   // the three CachePolicy values
   BState<1> pre; snapshot<1>(pre, w.b);
   Error err = allocator()->write(span, offset, src, size, VirtMem::CachePolicy(policy));
   verif_observe(uint64_t(err));
